@@ -25,7 +25,7 @@ impl TraitHandler for DerefMutEnumHandler {
         let mut arms_token_stream = proc_macro2::TokenStream::new();
 
         if let Data::Enum(data) = &ast.data {
-            type Variants<'a> = Vec<(&'a Ident, bool, usize, Ident)>;
+            type Variants<'a> = Vec<(&'a Ident, bool, usize, Ident, Option<&'a Ident>)>;
 
             let mut variants: Variants = Vec::new();
 
@@ -85,18 +85,18 @@ impl TraitHandler for DerefMutEnumHandler {
                 };
 
                 let (field_name, is_tuple): (Ident, bool) = match field.ident.as_ref() {
-                    Some(ident) => (ident.clone(), false),
+                    Some(ident) => (format_ident!("_{}", ident), false),
                     None => (format_ident!("_{}", index), true),
                 };
 
-                variants.push((&variant.ident, is_tuple, index, field_name));
+                variants.push((&variant.ident, is_tuple, index, field_name, field.ident.as_ref()));
             }
 
             if variants.is_empty() {
                 return Err(super::panic::no_deref_mut_field(meta.span()));
             }
 
-            for (variant_ident, is_tuple, index, field_name) in variants {
+            for (variant_ident, is_tuple, index, field_name, field_ident) in variants {
                 let mut pattern_token_stream = proc_macro2::TokenStream::new();
 
                 if is_tuple {
@@ -110,7 +110,7 @@ impl TraitHandler for DerefMutEnumHandler {
                         quote!( Self::#variant_ident ( #pattern_token_stream ) => #field_name, ),
                     );
                 } else {
-                    pattern_token_stream.extend(quote!( #field_name, .. ));
+                    pattern_token_stream.extend(quote!( #field_ident: #field_name, .. ));
 
                     arms_token_stream.extend(
                         quote!( Self::#variant_ident { #pattern_token_stream } => #field_name, ),
